@@ -246,7 +246,7 @@ def canon_exc(e: BaseException) -> str:
         return "IncompleteReadError"
     if isinstance(e, ConnectionError):
         return "ConnectionError"
-    if type(e).__name__ == "AuthError":
+    if type(e).__name__ in ("AuthError", "_AuthError") or any(c.__name__ == "SpnegoError" for c in type(e).__mro__):
         return "Other"
     return "Other:" + type(e).__name__
 
